@@ -14,7 +14,15 @@
 EXTENDS Naturals, Sequences, FiniteSets
 
 CONSTANTS
-  FixD4      \* build keeps the claims in the builder (TRUE) / drains them (FALSE, pinned commit)
+  \* build keeps the claims in the builder (TRUE) / drains them (FALSE, pinned commit)
+  \* @type: Bool;
+  FixD4
+
+\* Apalache type aliases (comments for TLC): builder state, operation, observed build outcome
+\* @typeAlias: bstate = { layer: Str, claims: Str -> Str, top: Set(Str), dup: Str, nonexp: Bool, footer: Str, assertion: Str, supplied: Str -> Int, expAfterAck: Bool, failed: Bool, nbuilt: Int };
+\* @typeAlias: bop = { op: Str, k: Str, v: Str };
+\* @typeAlias: bobs = { res: Str, key: Str, payload: Set(<<Str, Str>>) };
+BuilderTypeAliases == TRUE
 
 Reserved == {"exp", "nbf", "iat", "iss", "sub", "aud", "jti"}
 Custom   == {"ca", "cb"}
@@ -30,6 +38,7 @@ NoDup == "-"
 EmptyClaims == [k \in BKeys |-> Absent]
 
 \* GenericBuilder::new / PasetoBuilder::default
+\* @type: (Str) => $bstate;
 BInit(layer) ==
   [layer    |-> layer,
    claims   |-> IF layer = "prelude"
@@ -47,9 +56,11 @@ BInit(layer) ==
    nbuilt   |-> 0]                     \* number of tokens produced (= nonces drawn)
 
 \* GenericBuilder::set_claim (empty keys are not in BKeys)
+\* @type: ($bstate, Str, Str) => $bstate;
 GSet(b, k, v) == [b EXCEPT !.claims[k] = v]
 
 \* PasetoBuilder::set_claim / GenericBuilder::set_claim
+\* @type: ($bstate, Str, Str) => $bstate;
 SetClaim(b, k, v) ==
   IF b.layer = "prelude" THEN
     LET b1 == [b EXCEPT !.dup = IF k \in b.top THEN k ELSE b.dup,
@@ -60,22 +71,30 @@ SetClaim(b, k, v) ==
   ELSE GSet([b EXCEPT !.supplied[k] = b.supplied[k] + 1], k, v)
 
 \* GenericBuilder::remove_claim (not exposed by PasetoBuilder)
+\* @type: ($bstate, Str) => $bstate;
 RemoveClaim(b, k) == [b EXCEPT !.claims[k] = Absent]
 
 \* PasetoBuilder::set_no_expiration_danger_acknowledged
+\* @type: ($bstate) => $bstate;
 Ack(b) == [b EXCEPT !.top = b.top \cup {"exp"}, !.nonexp = TRUE]
 
+\* @type: ($bstate, Str) => $bstate;
 SetFooter(b, f)    == [b EXCEPT !.footer = f]
+\* @type: ($bstate, Str) => $bstate;
 SetAssertion(b, a) == [b EXCEPT !.assertion = a]
 
 \* PasetoBuilder::verify_ready_to_build removes exp when acknowledged - before the duplicate test
+\* @type: ($bstate) => $bstate;
 Ready(b) == IF b.layer = "prelude" /\ b.nonexp THEN [b EXCEPT !.claims["exp"] = Absent] ELSE b
 
 \* outcome of build / try_encrypt / try_sign as the code computes it
+\* @type: ($bstate) => Bool;
 BuildFails(b) == b.layer = "prelude" /\ b.dup # NoDup
+\* @type: ($bstate) => Set(<<Str, Str>>);
 Payload(b) == {<<k, Ready(b).claims[k]>> : k \in {x \in BKeys : Ready(b).claims[x] # Absent}}
 
 \* builder after a build call
+\* @type: ($bstate) => $bstate;
 AfterBuild(b) ==
   LET r == Ready(b) IN
   IF BuildFails(b) THEN [r EXCEPT !.failed = TRUE]
@@ -85,8 +104,10 @@ AfterBuild(b) ==
 (***************************************************************************)
 (* Operations as data (for histories and recorded traces)                  *)
 (***************************************************************************)
+\* @type: (Str, Str, Str) => $bop;
 Op(op, k, v) == [op |-> op, k |-> k, v |-> v]
 
+\* @type: ($bstate, $bop) => $bstate;
 Apply(b, o) ==
   CASE o.op = "set"       -> SetClaim(b, o.k, o.v)
     [] o.op = "remove"    -> RemoveClaim(b, o.k)
@@ -104,13 +125,18 @@ Apply(b, o) ==
 (*   C14: the payload is exactly the claim map (last value wins, removed   *)
 (*        claims absent, nothing else).                                    *)
 (***************************************************************************)
+\* @type: ($bstate) => Set(Str);
 Repeated(b) == {k \in BKeys : b.supplied[k] >= 2}
+\* @type: ($bstate) => Set(Str);
 DupNameable(b) == Repeated(b) \cup (IF b.expAfterAck THEN {"exp"} ELSE {})
 
+\* @type: ($bstate) => Bool;
 MustFail(b) == b.layer = "prelude" /\ (Repeated(b) # {} \/ b.failed)
+\* @type: ($bstate) => Bool;
 MayFail(b)  == b.layer = "prelude" /\ (DupNameable(b) # {} \/ b.failed)
 
 \* an observed build result obs = [res, key, payload]
+\* @type: ($bstate, $bobs) => Bool;
 BuildAllowed(b, obs) ==
   \/ /\ obs.res = "dup"
      /\ MayFail(b)
@@ -124,15 +150,19 @@ BuildAllowed(b, obs) ==
 (* reachable builder state): what the code-shaped model computes is        *)
 (* allowed by the property-shaped predicates above.                        *)
 (***************************************************************************)
+\* @type: ($bstate) => $bobs;
 ModelBuildObs(b) ==
   IF BuildFails(b) THEN [res |-> "dup", key |-> b.dup, payload |-> {}]
   ELSE [res |-> "ok", key |-> NoDup, payload |-> Payload(b)]
 
 \* C17
+\* @type: ($bstate) => Bool;
 DupIff(b)    == BuildAllowed(b, ModelBuildObs(b))
+\* @type: ($bstate) => Bool;
 DupSticky(b) == b.failed => BuildFails(b)
 
 \* C13
+\* @type: ($bstate) => Bool;
 ExpDefault(b) ==
   (b.layer = "prelude" /\ ~BuildFails(b)) =>
     LET P == Payload(b)
